@@ -82,6 +82,10 @@ def eq_goal(interp, st, have, want, tol=None):
     """formula stating that two engine values are equal (used as a proof goal)"""
     have = _res(have)
     want = _res(want)
+    from .values import VStr as _VStr
+    if isinstance(have, _VStr) or isinstance(want, _VStr):
+        # a text the engine does not model (f-string, '%g', str() of an object ...): nothing can be concluded about it
+        raise Unsupported("a goal depends on a text the engine does not model (%s)" % getattr(have if isinstance(have, _VStr) else want, "desc", "string"))
     if isinstance(have, VOpt) or isinstance(want, VOpt):
         return _opt_eq(interp, st, have, want)
     if have is None or want is None:
